@@ -24,7 +24,7 @@ class Prop(BaseProp):
     budget = {"quick": 900, "thorough": 20000}
     must_see = ["interval_none", "interval_bp_bp", "interval_half_half", "interval_same_piece", "interval_from_start",
                 "interval_to_end", "interval_without_events", "N>=3", "bivariate_form", "RI_true", "max_tau_positive",
-                "mrts_positive", "mrts_auto", "order_checked", "sync_checked"]
+                "mrts_positive", "mrts_auto", "order_checked", "sync_checked", "indices_selection", "indices_non_prefix"]
     arm_files = [("pyspike/PieceWiseConstFunc.py", ["integral", "avrg"]), ("pyspike/PieceWiseLinFunc.py", ["integral", "avrg"]),
                  ("pyspike/DiscreteFunc.py", ["integral", "avrg"]), ("pyspike/generic.py", None)]
     assumptions = ["the profile returned by the code under test is taken as given; its integration is redone exactly",
@@ -44,6 +44,8 @@ class Prop(BaseProp):
                 a, b, kind = gen.pick_interval(rng, ts, te, bps)
                 case["interval"] = [a, b]
                 case["ikind"] = kind
+            N = len(case["trains"])
+            case["idx"] = common.pick_indices(rng, N) if (N >= 3 and rng.random() < 0.35) else None
             yield case
 
     def check(self, case, ctx):
@@ -62,11 +64,18 @@ class Prop(BaseProp):
         if N == 2:
             ctx.count("bivariate_form")
 
+        idx = case.get("idx")
+        if idx is not None:
+            ctx.count("indices_selection")
+            common.idx_classes(ctx, idx, N)
+
         def callm(fn, **kw):
             if N == 2:
                 return ctx.call(fn, sts[0], sts[1], **kw)
+            if idx is not None:
+                return ctx.call(fn, sts, indices=idx, **kw)
             return ctx.call(fn, sts, **kw)
-        ctx.sample({"trains": tr, "edges": [ts, te], "kw": kwc, "interval": iv})
+        ctx.sample({"trains": tr, "edges": [ts, te], "kw": kwc, "interval": iv, "indices": case.get("idx")})
         tol = 1e-9 * max(1.0, (te - ts) / (b - a))
         kw_isi = {"MRTS": kwc["MRTS"]}
         kw_spk = {"MRTS": kwc["MRTS"], "RI": kwc["RI"]}
